@@ -34,3 +34,16 @@ def gen_tmseries(T):
     body += "end GeoVerif.Gen.TMSeries\n"
     T.write("TMSeries", body)
     T.digest.append(f"TMSeries: order={order} b1={[str(v) for v in b1]} alp[0..6]={[str(v) for v in alp[:7]]} bet[0..6]={[str(v) for v in bet[:7]]}")
+
+
+def gen_tmexact(T):
+    """iteration cap of the Newton inversions of TransverseMercatorExact (header constant numit_)"""
+    vals = T.class_ints("include/GeographicLib/TransverseMercatorExact.hpp", ["numit_"])
+    numit = int(vals["numit_"])
+    if not (0 < numit < 1000):
+        raise T.Missing(f"TransverseMercatorExact::numit_ = {numit} is not a plausible iteration cap")
+    body = "namespace GeoVerif.Gen.TMExact\n"
+    body += f"def numit : Nat := {numit}\n"
+    body += "end GeoVerif.Gen.TMExact\n"
+    T.write("TMExact", body)
+    T.digest.append(f"TMExact: numit_={numit}")
